@@ -557,3 +557,163 @@ def r_wiring_all(ctx, view):
             else:
                 ctx.ob("R-ESI", "%s:e3:override:%s" % (T, item["name"]), item["name"] in ("next", "size_hint"), m.loc(),
                        "self-made iterator defines `%s` (only next/size_hint are verifiable)" % item["name"])
+
+
+# ------------------------------------------------------------------------------------------
+# R-SELFMADE: hand-written cursor iterators that are neither raw-pointer steppers (R-CURSOR) nor pop-family
+# consumers (R-SIDE) - none on the reviewed tree; a wrapper rewritten into a cursor iterator lands here
+# ------------------------------------------------------------------------------------------
+def selfmade_types(view):
+    prog = view.prog
+    raw = set(raw_extension_sites(view))
+    out = []
+    for im in impls_of(prog, IT):
+        T = im["self_desc"]
+        nx = method(prog, im, "next")
+        if nx is None:
+            continue
+        dn = delegating_inner(view, nx)
+        if dn is not None and dn[0].endswith("::next"):
+            continue
+        dei = impl_for(prog, DEI, T)
+        nb = method(prog, dei, "next_back") if dei else None
+        if nx.key in raw or (nb is not None and nb.key in raw):
+            continue
+        pops = [view.fx.call_info(nx, bb).local_callee for bb, _ in nx.calls()]
+        if any(c and c.split("::")[-1].startswith("pop") for c in pops):
+            continue
+        esi = impl_for(prog, ESI, T)
+        out.append((T, nx, nb, method(prog, esi, "len") if esi else None))
+    return out
+
+
+def _len_shape(view, sk, ln):
+    """len() = X - Y  ->  (cx, cy, X term, Y term); len() = X -> (cx, None, X, None)"""
+    lt = strip(ret_term(view, ln))
+    if lt[0] == "field" and strip(lt[1])[0] == "binop":
+        lt = strip(lt[1])
+    if lt[0] == "binop" and lt[1] in ("Sub", "SubWithOverflow", "SubUnchecked"):
+        return sk.c(lt[2]), sk.c(lt[3]), strip(lt[2]), strip(lt[3])
+    if lt[0] == "call" and lt[1].endswith("saturating_sub") and len(lt[2]) == 2:
+        return sk.c(lt[2][0]), sk.c(lt[2][1]), strip(lt[2][0]), strip(lt[2][1])
+    return sk.c(lt), None, lt, None
+
+
+def _paths(f, cap=300):
+    cfg = f.cfg
+    out = []
+    st = [(0, (0,))]
+    while st and len(out) < cap:
+        b, p = st.pop()
+        if f.term(b)["k"] == "return":
+            out.append(p)
+            continue
+        for s in cfg.succ[b]:
+            if s in p:
+                return None   # a loop
+            st.append((s, p + (s,)))
+    return out
+
+
+def _ret_kind(view, f, path):
+    """'some' / 'none' / 'opt' (an Option handed through from a call) for the value returned along path"""
+    last = {}
+    for b in path:
+        blk = f.blocks[b]
+        for s in blk["stmts"]:
+            if s["k"] == "assign" and not s["place"]["proj"]:
+                last[s["place"]["local"]] = ("stmt", s["rv"])
+        t = blk["term"]
+        if t["k"] == "call" and not t["dest"]["proj"]:
+            last[t["dest"]["local"]] = ("call", t)
+
+    def kind(l, depth=0):
+        d = last.get(l)
+        if d is None or depth > 6:
+            return "opt"
+        if d[0] == "call":
+            nm = d[1]["func"]["name"] if "func" in d[1] else ""
+            return "none" if nm == "from_residual" else "opt"
+        rv = d[1]
+        if rv["k"] == "aggregate" and rv.get("agg") == "adt" and rv.get("path") == "std::option::Option":
+            return "some" if rv["variant"] == "Some" else "none"
+        if rv["k"] == "use" and rv["op"]["k"] in ("copy", "move") and not rv["op"]["place"]["proj"]:
+            return kind(rv["op"]["place"]["local"], depth + 1)
+        return "opt"
+    return kind(0)
+
+
+def r_selfmade(ctx, view, fixture=False):
+    """R-SELFMADE.  A hand-written cursor iterator with an exact length `len() = X - Y` (Y the front cursor, X the back
+    cursor or the container length) keeps `len()` equal to the number of elements still to come iff, path by path:
+    a path that yields moves exactly the method's own cursor by one (next: Y+1, next_back: X-1) and is guarded by Y < X;
+    a path that yields nothing moves no cursor.  Paths, moves and guards are read from the MIR of next / next_back."""
+    from .rules_sift import Skel
+    prog = view.prog
+    ctx.cur = view
+    sk = Skel(view)
+    res = {}
+    for (T, nx, nb, ln) in selfmade_types(view):
+        key = T
+        if ln is None:
+            # no exact length is promised: size_hint of inexact iterators is R-ESI e5's business
+            continue
+        cx, cy, X, Y = _len_shape(view, sk, ln)
+        bad = []
+        notes = []
+        for m, role in ((nx, "front"), (nb, "back")):
+            if m is None:
+                continue
+            paths = _paths(m)
+            if paths is None:
+                notes.append("%s has a loop: not decided" % m.name)
+                continue
+            for p in paths:
+                moves = []
+                for b in p:
+                    for si, s in enumerate(m.blocks[b]["stmts"]):
+                        if s["k"] != "assign" or not s["place"]["proj"]:
+                            continue
+                        fld = self_field(view.vp.place(m, s["place"]))
+                        if fld is None:
+                            continue
+                        moves.append((fld, move_dir(view.vp.rvalue(m, s["rv"]), fld)))
+                rk = _ret_kind(view, m, p)
+                lits = set()
+                for a, b in zip(p, p[1:]):
+                    if m.term(a)["k"] == "switch" and len(m.cfg.succ[a]) >= 2:
+                        for l in sk.literals_of_edge(m, a, b):
+                            lits.add(l)
+                guarded = False
+                if cy is not None:
+                    guarded = ("Lt(%s,%s)" % (cy, cx), True) in lits
+                    if not guarded:
+                        # `container.get(Y)` answered Some and X is that container's length
+                        for txt, pol in lits:
+                            if pol and txt.startswith("some(") and cy in txt and X[0] == "call" and X[1].split("::")[-1] == "len" and X[2] and sk.c(X[2][0]) in txt:
+                                guarded = True
+                else:
+                    guarded = ("GE(%s,1)" % cx, True) in lits
+                where = "%s path %s" % (m.name, "->".join("bb%d" % b for b in p))
+                yields = rk == "some" or (rk == "opt" and guarded)
+                if yields:
+                    want_fld = self_field(Y) if role == "front" else self_field(X)
+                    want_dir = "+1" if role == "front" else "-1"
+                    if cy is None and role == "front":
+                        want_fld, want_dir = self_field(X), "-1"
+                    if want_fld is None:
+                        notes.append("%s: the %s bound of len() is not a cursor field: its step is not decided" % (m.name, role))
+                    elif moves != [(want_fld, want_dir)]:
+                        bad.append("%s yields but moves %s (must move exactly self.%s by %s)" % (where, moves or "nothing", want_fld, want_dir))
+                    if not guarded and want_fld is not None:
+                        bad.append("%s yields without the guard %s < %s: len() underflows / an element is yielded from both ends" % (where, cy, cx))
+                else:
+                    if moves:
+                        bad.append("%s yields nothing (or hands an unguarded Option through) but moves %s" % (where, moves))
+        res[T] = (bad, notes)
+        if not fixture:
+            loc = nx.loc()
+            ctx.ob("R-SELFMADE", key, not bad, loc,
+                   ("len() = %s - %s; every yielding path moves its own cursor once under the guard, no other path moves a cursor%s" % (
+                       cx, cy, ("; " + "; ".join(notes)) if notes else "")) if not bad else "; ".join(bad[:3]))
+    return res
